@@ -77,6 +77,40 @@ def confirm(d):
     return res
 
 
+def detect_scratch(d, props, tier, budget):
+    """like detect, but on a scratch worktree (PWV_REPO) with evidence/replays redirected: safe to run in parallel"""
+    name = os.path.basename(d.rstrip("/"))
+    wt = f"/tmp/pwv-det-{name}"
+    sh(f"git -C {REPO} worktree remove --force {wt}")
+    shutil.rmtree(wt, ignore_errors=True)
+    sh(f"git -C {REPO} worktree add --detach {wt} HEAD")
+    res = {"name": name, "head": sh("git rev-parse --short HEAD", cwd=REPO)[1].strip(), "checks": {}, "scratch": True}
+    try:
+        rc, out = sh(f"git apply {d}/patch.diff", cwd=wt)
+        if rc != 0:
+            rc, out = sh(f"git apply --3way {d}/patch.diff", cwd=wt)
+            if rc != 0:
+                res["error"] = "patch does not apply: " + out[-300:]
+                json.dump(res, open(os.path.join(d, "detect.json"), "w"), indent=1)
+                return res
+        env = dict(os.environ)
+        env.update({"PWV_REPO": wt, "PWV_EVIDENCE_DIR": f"/tmp/pwv-det-ev-{name}", "PWV_OUT_DIR": f"/tmp/pwv-det-ev-{name}"})
+        for p in props:
+            t0 = time.time()
+            cmd = f"./check {p} --tier {tier}" + (f" --budget {budget}" if budget else "")
+            rc, out = sh(cmd, cwd=VERIF, env=env, timeout=7200)
+            viol = [ln for ln in out.splitlines() if ln.startswith("VIOLATION")]
+            res["checks"][p] = {"rc": rc, "violations": len(viol), "first": [v[:300] for v in viol[:3]], "wall": round(time.time() - t0),
+                                "head": out.splitlines()[0][:200] if out else ""}
+    finally:
+        sh(f"git -C {REPO} worktree remove --force {wt}")
+        shutil.rmtree(wt, ignore_errors=True)
+        shutil.rmtree(f"/tmp/pwv-det-ev-{name}", ignore_errors=True)
+    res["detected"] = any(c["rc"] == 1 for c in res["checks"].values())
+    json.dump(res, open(os.path.join(d, "detect.json"), "w"), indent=1)
+    return res
+
+
 def detect(d, props, tier, budget):
     name = os.path.basename(d.rstrip("/"))
     if not clean_repo():
@@ -138,7 +172,7 @@ def main():
             if pp is None:
                 meta = json.load(open(os.path.join(d, "meta.json")))
                 pp = [meta["property"]]
-            r = detect(d, pp, tier, budget)
+            r = (detect_scratch if mode == "detect-scratch" else detect)(d, pp, tier, budget)
             print(json.dumps({"name": r["name"], "detected": r.get("detected"), "error": r.get("error"),
                               "checks": {k: (v["rc"], v["violations"]) for k, v in r["checks"].items()}}))
             for k, v in r["checks"].items():
